@@ -14,6 +14,12 @@ import (
 
 func init() {
 	Register(&Scenario{Prop: "C11", Name: "merge", Strict: true, Quick: 10, Thorough: 10, Run: runC11})
+	// every arrival order of the split file lists at the commit, enumerated (2..4 splits: 2, 6 or 24 orders)
+	Register(&Scenario{Prop: "C11", Name: "merge-all-arrival-orders", Strict: true, Quick: 2, Thorough: 4, Run: func(rc *RunCtx) *simkit.Violation {
+		c11AllOrders = true
+		defer func() { c11AllOrders = false }()
+		return runC11(rc)
+	}})
 }
 
 // cloneDiamond copies every object of a diamond under a fresh diamond id (same splits, same entries, same
@@ -33,6 +39,29 @@ func cloneDiamond(d *DM, repo, from string) string {
 		d.VMet.Seed(model.GetArchivePathPrefixToDiamonds(repo)+to+"/"+strings.TrimPrefix(k, src), data)
 	}
 	return to
+}
+
+var c11AllOrders bool
+
+// permutations of 0..n-1 in lexicographic order.
+func permutations(n int) [][]int {
+	var out [][]int
+	var rec func(cur []int, used []bool)
+	rec = func(cur []int, used []bool) {
+		if len(cur) == n {
+			out = append(out, append([]int(nil), cur...))
+			return
+		}
+		for i := 0; i < n; i++ {
+			if !used[i] {
+				used[i] = true
+				rec(append(cur, i), used)
+				used[i] = false
+			}
+		}
+	}
+	rec(nil, make([]bool, n))
+	return out
 }
 
 func runC11(rc *RunCtx) *simkit.Violation {
@@ -56,6 +85,9 @@ func runC11(rc *RunCtx) *simkit.Violation {
 	k := t.Pick(1, 1, 2, 2, 3, 3, 4, 5)
 	if rc.Thorough() {
 		k = t.Range(1, 8)
+	}
+	if c11AllOrders {
+		k = t.Pick(2, 3, 3, 4)
 	}
 	alphabet := [][]byte{[]byte("content A"), []byte("content B is longer"), []byte("C")}
 	shared := []string{"p0", "p1", "dir/p2", "dir/p3", "x y/p4", "p5"}
@@ -107,6 +139,73 @@ func runC11(rc *RunCtx) *simkit.Violation {
 		return Viol(prop, "split-not-done", "split add", did, "%d of %d splits have a done descriptor", len(splits), k)
 	}
 	w.Note("diamond with %d splits (leaf %d): %s", k, leaf, renderTrees(trees))
+	if c11AllOrders {
+		// one commit per arrival order of the k split file lists (each split has one), in a conflict-keeping mode and in
+		// forbid mode: every order gives the merge the oracle computes, and the same bundle / the same refusal
+		perms := permutations(k)
+		conflict := hasRealConflict(splits)
+		var first map[string]string
+		for pi, perm := range perms {
+			for _, mode := range []model.ConflictMode{model.EnableConflicts, model.ForbidConflicts} {
+				id := cloneDiamond(d, "r1", did)
+				next := 0
+				w.Prefer = func(parked []*simkit.Call) int {
+					if next >= len(perm) {
+						return -1
+					}
+					want := "/splits/" + splits[perm[next]].ID + "/"
+					for i, c := range parked {
+						if c.Op == simkit.OpGet && strings.Contains(c.Key, want) && strings.Contains(c.Key, "bundle-files-") {
+							next++
+							return i
+						}
+					}
+					for i, c := range parked { // let everything else go first: the wanted read has not been issued yet
+						if !(c.Op == simkit.OpGet && strings.Contains(c.Key, "/splits/") && strings.Contains(c.Key, "bundle-files-")) {
+							return i
+						}
+					}
+					return -1
+				}
+				c := w.Client(fmt.Sprintf("commit-%d-%s", pi, mode))
+				tk, v := doOp(prop, w, c, fmt.Sprintf("commit order %v %s", perm, mode), commitFn(d.Stores(c), "r1", id, mode, leaf, nil))
+				w.Prefer = nil
+				if v != nil {
+					return v
+				}
+				if next != len(perm) {
+					return Viol(prop, "harness", "arrival-order", id, "could not impose arrival order %v: %d of %d file-list reads were steered", perm, next, len(perm))
+				}
+				if mode == model.ForbidConflicts {
+					if conflict && tk.Err == nil {
+						return Viol(prop, "forbid-accepted-conflict", "Commit", string(mode), "two splits uploaded different contents for a path but the commit in forbid mode succeeded when the split file lists arrived in order %v", perm)
+					}
+					if !conflict && tk.Err != nil {
+						return Viol(prop, "forbid-refused-without-conflict", "Commit", string(mode), "no two splits differ on a path but the commit in forbid mode failed (arrival order %v): %v", perm, tk.Err)
+					}
+					continue
+				}
+				if tk.Err != nil {
+					return Viol(prop, "commit-failed", "Commit", string(mode), "fault-free commit failed (arrival order %v): %v", perm, tk.Err)
+				}
+				em, _, v := bundleEntryMap(prop, d, c, "r1", tk.Result.(commitRes).BundleID)
+				if v != nil {
+					return v
+				}
+				if cls, obj, msg := checkMerge(em, splits, mode); cls != "" {
+					return Viol(prop, cls, string(mode), obj, "[arrival order %v of %d splits] %s", perm, k, msg)
+				}
+				if first == nil {
+					first = em
+				} else if fmt.Sprint(sortedPairs(first)) != fmt.Sprint(sortedPairs(em)) {
+					return Viol(prop, "order-dependent", string(mode), "", "the bundle committed with arrival order %v differs from the one committed with order %v", perm, perms[0])
+				}
+			}
+		}
+		w.ProbeN("arrival-orders-enumerated", len(perms))
+		w.Probe("nontrivial")
+		return nil
+	}
 	modes := []model.ConflictMode{model.EnableConflicts, model.EnableConflicts, model.IgnoreConflicts, model.EnableCheckpoints, model.ForbidConflicts, model.EnableCheckpoints}
 	ids := []string{did}
 	for i := 1; i < len(modes); i++ {
@@ -241,6 +340,14 @@ func runC11(rc *RunCtx) *simkit.Violation {
 		w.Probe("single-split-vs-upload")
 	}
 	return nil
+}
+
+func sortedPairs(m map[string]string) []string {
+	var out []string
+	for _, k := range sortedKeys(m) {
+		out = append(out, k+"="+m[k])
+	}
+	return out
 }
 
 func short(s string) string {
